@@ -626,7 +626,6 @@ func RunRebuild(s *Scen, r *vk.Rand, a, b int, bin, base string, cycles int) {
 	}
 }
 
-
 // dumpSector (dev aid) prints, for every replica, which chain file holds what at the sector named in msg.
 func (cl *Cluster) dumpSector(msg string) string {
 	var sector int64
@@ -656,7 +655,6 @@ func (cl *Cluster) dumpSector(msg string) string {
 	}
 	return out
 }
-
 
 // rmwPattern recognises the shape of known finding F11 at the sector named in
 // msg: in the promoted replica's head the 4 KiB block holds the stale sector
